@@ -6,6 +6,10 @@ mod driver;
 mod oracle;
 mod report;
 mod rng;
+mod c03;
+mod c07;
+mod c12;
+mod c13;
 mod c14;
 mod c15;
 mod c17;
@@ -42,10 +46,23 @@ fn parse() -> Opts {
     o
 }
 
+pub static LAST_PANIC: std::sync::Mutex<String> = std::sync::Mutex::new(String::new());
+
 fn main() {
+    let r = std::panic::catch_unwind(real_main);
+    if r.is_err() {
+        eprintln!("slh: the harness itself panicked: {}", LAST_PANIC.lock().map(|g| g.clone()).unwrap_or_default());
+        std::process::exit(2);
+    }
+}
+
+fn real_main() {
     let o = parse();
     // panics of the code under test are caught per case; keep the default hook quiet
-    std::panic::set_hook(Box::new(|_| {}));
+    std::panic::set_hook(Box::new(|info| {
+        // remember the last panic so that a panic of the HARNESS itself (not caught per case) can be reported
+        if let Ok(mut g) = LAST_PANIC.lock() { *g = info.to_string(); }
+    }));
     let mut drv = driver::Driver::spawn(&o.driver);
     let replay_lines: Option<Vec<String>> = o.replay.as_ref().map(|p| {
         let v: serde_json::Value = serde_json::from_str(&std::fs::read_to_string(p).expect("replay file")).expect("replay json");
@@ -56,6 +73,24 @@ fn main() {
         "C19" => {
             rep = Report::new("C19", &o.tier, o.seed, "operand pairs (a,b) of 16 LE bytes; non-trivial = both operands non-zero; distinct by (stream,a,b)");
             match &replay_lines { Some(l) => c19::replay(&mut drv, &mut rep, l), None => c19::run(&o, &mut drv, &mut rep) }
+        }
+        "C07" | "C08" => {
+            rep = Report::new(&o.prop, &o.tier, o.seed, "(key p,q in one of four limb configurations, plaintexts, scalar, randomisers) per Paillier operation; every case is one model request; non-trivial = all; distinct by request text");
+            let p = o.prop.clone();
+            match &replay_lines { Some(l) => c07::replay(&mut drv, &mut rep, l, &p), None => c07::run(&o, &mut drv, &mut rep, &p) }
+        }
+        "C12" => {
+            rep = Report::new("C12", &o.tier, o.seed, "(root key, chain code, prefix, path of u32 child numbers) per derive_xpub case, plus single derive_child_pubkey steps and Base58 strings; non-trivial = valid root and non-hardened path of 2..=255 components (stream `child`: valid parent, normal index); distinct by request");
+            match &replay_lines { Some(l) => c12::replay(&mut drv, &mut rep, l), None => c12::run(&o, &mut drv, &mut rep) }
+        }
+        "C03" | "C04" => {
+            rep = Report::new(&o.prop, &o.tier, o.seed, "C03: one honest SoftSpoken run = (session id, all-but-one seed set with its 64 punctured indices, 512 choice bits, rng tape); C04: the same plus one alteration of the first-round message (bit flip / overwrite / swap / splice) or one re-derived deviation (blocks, difference vectors, guessed indices); non-trivial = every case (each runs the full protocol on 256 seeds x 640 columns); distinct by the full request");
+            let p = o.prop.clone();
+            match &replay_lines { Some(l) => c03::replay(&mut drv, &mut rep, l, &p), None => c03::run(&o, &mut drv, &mut rep, &p) }
+        }
+        "C13" => {
+            rep = Report::new("C13", &o.tier, o.seed, "requests to math.rs functions: factorial_range(s,e), polynomials of degree 0..=24 with evaluation/derivative/commitment/Feldman cases, (point, order) sets for Birkhoff/Lagrange; non-trivial = all; distinct by request text");
+            match &replay_lines { Some(l) => c13::replay(&mut drv, &mut rep, l), None => c13::run(&o, &mut drv, &mut rep) }
         }
         "C14" => {
             rep = Report::new("C14", &o.tier, o.seed, "(secret x, base point, transcript context, rng tape) for honest proofs, each followed by 17 single-field / single-bit mutations of (t,s), y, B and the context; non-trivial = x != 0; distinct by request");
